@@ -599,6 +599,7 @@ func NewCadenceEnumMemoryUsages(fields int) (MemoryUsage, MemoryUsage) {
 const BigIntWordSize = int(unsafe.Sizeof(big.Word(0)))
 
 var bigIntWordSizeAsBig = big.NewInt(int64(BigIntWordSize))
+var bigIntWordBitSizeAsBig = big.NewInt(int64(BigIntWordSize * 8))
 
 func BigIntByteLength(v *big.Int) int {
 	// NOTE: big.Int.Bits() actually returns a slice of words,
@@ -825,14 +826,16 @@ func NewBitwiseRightShiftBigIntMemoryUsage(a, b *big.Int) MemoryUsage {
 		if b.Sign() == 0 {
 			resultWordLength = aWordLength + 4
 		} else {
+			// The result is shorter by the number of whole words that are shifted out,
+			// i.e. the shift amount (in bits) divided by the word size in bits.
 			// TODO: meter the allocation of the metering itself
-			shiftByteLengthBig := new(big.Int).Div(b, bigIntWordSizeAsBig)
+			shiftWordLengthBig := new(big.Int).Div(b, bigIntWordBitSizeAsBig)
 			// TODO: handle big int shifts
-			if !shiftByteLengthBig.IsInt64() {
+			if !shiftWordLengthBig.IsInt64() {
 				panic(invalidLeftShift)
 			}
-			shiftByteLength := int(shiftByteLengthBig.Int64())
-			resultWordLength = aWordLength - shiftByteLength + 4
+			shiftWordLength := int(shiftWordLengthBig.Int64())
+			resultWordLength = max(aWordLength-shiftWordLength, 0) + 4
 		}
 	} else {
 		resultWordLength = aWordLength + 4
